@@ -127,4 +127,10 @@ example : roundTrip cfg (.q none false (.cons (.q (some "OR") false (.cons (kv "
     = .value (.q none false (.cons (.q (some "OR") false (.cons (kv "a" (.int 1)) (.cons (kv "b" (.int 2)) .nil)))
       (.cons (.q none true (.cons (kv "a" (.int 1)) .nil)) .nil))) := by decide
 
+/-- a hint takes the field's own default only when the field has one, or is a text field that may be
+blank (the empty string); every other NOT NULL column gets the placeholder that asks for a value (read by
+the translator on every run) -/
+theorem C13_source_initial_value_rule : DEvo.Generated.initialValueRule =
+    "field and (field.has_default() or (field.empty_strings_allowed and field.blank))" := by decide
+
 end DEvo.Props.C13
